@@ -249,8 +249,7 @@ class C18:
             key = b"\x11\x22\x33\x44"
             frame.flags.mask = 1
             frame.masking_key = key
-            # the library writes frame.payload as is: a masked frame carries masked bytes
-            frame.payload = W._mask_fast(bytes(payload), key) if payload else b""
+            # RFC 6455 5.3: with the mask bit set the payload travels XORed with the key - the library has to do that
         opc = {"Text": 1, "Binary": 2, "Ping": 9, "Pong": 10, "Close": 8}[kind]
         ref = W.ref_encode(opc, payload, key)
 
